@@ -857,6 +857,21 @@ func analyseExpression(fd *ast.FuncDecl) exprKeys {
 	if k.comma == "" {
 		die(loop.Pos(), "Expression: comma dispatch not found")
 	}
+	// the CnodeStack discipline mirrored by coq/Model/PrattStack.v (exprS / loopS): push in front at
+	// entry, overwrite the front in the led loop before Advance, pop the front at exit; the MunchLeft
+	// functions read index 0 (checked where their bodies are read)
+	whole := src(fd.Body)
+	push := strings.Index(whole, "p.CnodeStack = append([]Sexp{p.NextToken}, p.CnodeStack...)")
+	pop := strings.LastIndex(whole, "p.CnodeStack = p.CnodeStack[1:]")
+	loopAt := strings.Index(whole, "for !p.IsEOF()")
+	if push < 0 || pop < 0 || !(push < loopAt && loopAt < pop) || strings.Count(whole, "p.CnodeStack =") != 2 {
+		die(fd.Pos(), "Expression: CnodeStack is not pushed in front at entry and popped from the front after the led loop")
+	}
+	set := strings.Index(s, "p.CnodeStack[0] = p.NextToken")
+	adv := strings.Index(s, "p.Advance()")
+	if set < 0 || adv < 0 || set > adv || strings.Count(s, "p.CnodeStack[") != 1 {
+		die(loop.Pos(), "Expression: the led loop does not set CnodeStack[0] = NextToken before Advance")
+	}
 	return k
 }
 
